@@ -90,7 +90,7 @@ func (s *Sim) OfferRaw(b *refchain.Block, raw []byte, family string) (refchain.R
 		return rr, gr, false
 	}
 	if s.CompareUTXOEvery > 0 && s.deliveries%s.CompareUTXOEvery == 0 {
-		if d := DiffUTXO(s.N.DumpUTXO(), s.Ref.Utxo); d != "" {
+		if d := DiffNodeUTXO(s.N.DumpUTXO(), s.Ref.Utxo); d != "" {
 			w := wit()
 			w["utxo_diff"] = d
 			s.Run.Violation("utxo-mismatch/"+rr.Stage+"/"+family, "UTXO set differs from the reference after delivery: "+d, w)
